@@ -14,9 +14,10 @@ Mirrors, function by function and with the same order of effects,
   `UserSpaceImpl.set_attr / del_attr`, `Model.del_spec`, `PandasData.sheet` setter,
   `System.close_model`.
 
-The model describes the code that exists.  Six behaviours of that code break the property
-(C18) and are reproduced here as they are; they are named by the `Trig…` predicates at the
-end of the file.
+The model describes the code that exists (after the repairs aad9766 `change_ref` registers the
+new reference first, and 626845c `_can_update_other` applies the rule of `_can_add_other`).
+Four behaviours of that code break the property (C18) and are reproduced here as they are;
+they are named by the `trig…` predicates at the end of the file.
 
 Representation.
 * A Python object is a `Val`: a pandas object, another non-Interface object, or a modelx
@@ -233,20 +234,21 @@ def rmDelRef (st : St) (o : Owner) (n : String) : Res :=
         if ref ∈ l then (dropIfEmpty (implDelRef st o n) o.model ref.val (l.erase ref), .ok ())
         else (implDelRef st o n, .error .value)                -- `refs.remove(ref)`
 
-/-- the middle of `change_ref`: `refs = self._valid_to_refs.get(prev_valid)`; if there is an
+/-- the end of `change_ref`: `refs = self._valid_to_refs.get(prev_valid)`; if there is an
 entry, `prev_ref` is removed from it when present, and an empty entry is dropped with its spec -/
 def changeDrop (st : St) (m : Nat) (prev : Ref) : St :=
   match alookup st.v2r (m, prev.val) with
   | none => st
   | some l => dropIfEmpty st m prev.val (l.erase prev)
 
-/-- `ReferenceManager.change_ref(impl, name, value)` -/
+/-- `ReferenceManager.change_ref(impl, name, value)`: the new reference is registered first
+(it may hold the very object the previous one held), then the previous one is dropped -/
 def rmChangeRef (st : St) (o : Owner) (n : String) (v : Val) : Res :=
   match refLookup st.refs o n with
   | none => (st, .error .key)
   | some prev =>
     if v.tracked then
-      (v2rAppend (changeDrop (implChangeRef st o n v) o.model prev) o.model v (mkRef st o n v), .ok ())
+      (changeDrop (v2rAppend (implChangeRef st o n v) o.model v (mkRef st o n v)) o.model prev, .ok ())
     else (changeDrop (implChangeRef st o n v) o.model prev, .ok ())
 
 /-- `ReferenceManager.specs`: for every entry, `get_spec(r[0].interface)` -/
@@ -366,14 +368,16 @@ def newPandas (kw : List String) (st : St) (o : Owner) (n : String) (path : Stri
       if e = .value ∨ e = .key ∨ e = .attribute then (delSpec st2 σ, .error .key)
       else (st2, .error e)
 
-/-- `model.get_spec(value).sheet = sheet` → `IOManager.update_spec` with
-`PandasData._can_update_other`: refused only if another spec of the file has that sheet -/
+/-- `model.get_spec(value).sheet = sheet` → `IOManager.update_spec` -/
 def setSheetMap (sid : Nat) (sh : Option String) (τ : Spec) : Spec :=
   if τ.sid = sid then { τ with sheet := sh } else τ
 
-/-- `BaseSharedIO._can_update_spec` with `PandasData._can_update_other` -/
+/-- `BaseSharedIO._can_update_spec` with `PandasData._can_update_other`: every OTHER spec of the
+file must name a sheet, the new sheet must be named, and the names must differ (the rule of
+`_can_add_other`) -/
 def sheetFree (l : List Spec) (σ : Spec) (sh : Option String) : Bool :=
-  (ioSpecs l σ.group σ.path).all (fun c => c.sid = σ.sid || c.sheet != sh)
+  (ioSpecs l σ.group σ.path).all
+    (fun c => c.sid = σ.sid || (sh.isSome && c.sheet.isSome && c.sheet != sh))
 
 def setSheet (st : St) (m : Nat) (v : Val) (sheet : Option String) : Res :=
   match getSpecFromValue st m v with
@@ -447,7 +451,7 @@ def step (kw : List String) (st : St) (op : Op) : St := (stepR kw st op).1
 
 def run (kw : List String) (st : St) (ops : List Op) : St := ops.foldl (step kw) st
 
-/-! ## The six triggers (behaviours of the code that break C18), as decidable predicates on
+/-! ## The four triggers (behaviours of the code that break C18), as decidable predicates on
 the state before an operation -/
 
 /-- C18-cells-name: `new_pandas(name, …)` where `name` is a scalar cells of the space –
@@ -459,30 +463,6 @@ def trigCellsName (st : St) : Op → Bool
 /-- C18-double-spec: `new_pandas` for a value that already has a spec in this model -/
 def trigDoubleSpec (st : St) : Op → Bool
   | .newPandas o _ _ _ _ data => (getSpecFromValue st o.model data).isSome
-  | _ => false
-
-/-- C18-rebind-same: a name that is the only reference to a value is assigned that same value
-while the value has a spec (always the case inside `new_pandas`) – `change_ref` empties the entry, deletes the
-spec, and only then appends the new reference -/
-def trigRebindSame (st : St) : Op → Bool
-  | .bind o name v =>
-    (match refLookup st.refs o name with
-     | some r => r.val == v && v.tracked && (getSpecFromValue st o.model v).isSome
-                 && alookup st.v2r (o.model, v) == some [r]
-     | none => false)
-  | .newPandas o name _ _ _ data =>
-    (match refLookup st.refs o name with
-     | some r => r.val == data && alookup st.v2r (o.model, data) == some [r]
-     | none => false)
-  | _ => false
-
-/-- C18-sheet-setter: `spec.sheet = None` while the file holds another spec (creation would
-refuse it) -/
-def trigSheetNone (st : St) : Op → Bool
-  | .setSheet m v sheet =>
-    (match getSpecFromValue st m v with
-     | some σ => sheet.isNone && (ioSpecs st.specs σ.group σ.path).any (fun c => c.sid != σ.sid)
-     | none => false)
   | _ => false
 
 /-- C18-del-space: `del model.S` while `S` holds a reference to a tracked value -/
@@ -501,8 +481,7 @@ def trigUpdateOnto (st : St) : Op → Bool
   | _ => false
 
 def clean (st : St) (op : Op) : Bool :=
-  !trigCellsName st op && !trigDoubleSpec st op && !trigRebindSame st op &&
-  !trigSheetNone st op && !trigDirtyDelete st op && !trigUpdateOnto st op
+  !trigCellsName st op && !trigDoubleSpec st op && !trigDirtyDelete st op && !trigUpdateOnto st op
 
 /-- no operation of the history hits a trigger -/
 def AllClean (kw : List String) : St → List Op → Prop
